@@ -3,7 +3,7 @@ from engine.core import Ob
 CK = ('--bounds-check', '--pointer-check', '--signed-overflow-check', '--div-by-zero-check')
 CKL = ('--bounds-check', '--signed-overflow-check', '--div-by-zero-check')
 OBLIGATIONS = [
-    Ob(name='C16.O1.bp_fork_handlers', harness='C15/bp.c', entry='h_fork', defines=('_LGPL_SOURCE',), unwind=6, unwindset=('urcu_bp_prune_registry.0:9', 'urcu_bp_prune_registry.1:2'), min_covers=4, checks=CKL, timeout=600, tier='B',
+    Ob(name='C16.O1.bp_fork_handlers', harness='C15/bp.c', entry='h_fork', defines=('_LGPL_SOURCE',), native=True, unwind=6, unwindset=('urcu_bp_prune_registry.0:9', 'urcu_bp_prune_registry.1:2'), min_covers=4, checks=CKL, timeout=600, tier='B',
        bound='one registry chunk (8 slots): 2 allocated + registered slots with arbitrary owners (forking thread or other), the rest free; loops fully unwound',
        functions=('urcu_bp_before_fork', 'urcu_bp_after_fork_parent', 'urcu_bp_after_fork_child', 'urcu_bp_prune_registry', 'cleanup_thread'),
        desc='bp fork handlers: before_fork blocks all signals and takes gp lock then registry lock; parent: registry untouched; child: every slot not owned by the forking thread is released (alloc, tid, reader word cleared, off the registry, usage count), its own slots are kept; both: locks released, pre-fork signal mask restored'),
@@ -11,18 +11,18 @@ OBLIGATIONS = [
 H = 'C16/callrcu_fork.c'
 D = ('_LGPL_SOURCE',)
 OBLIGATIONS += [
-    Ob(name='C16.O2.call_rcu_before_fork', harness=H, entry='h_before_fork', defines=D, unwind=6, min_covers=4, checks=CKL, timeout=600, tier='B',
+    Ob(name='C16.O2.call_rcu_before_fork', harness=H, entry='h_before_fork', defines=D, native=True, unwind=6, min_covers=4, checks=CKL, timeout=600, tier='B',
        bound='<= 2 helpers (each asleep or not, real-time or not, with or without a queued callback, reacting to PAUSE within 0..2 polls)',
        functions=('call_rcu_before_fork', 'wake_call_rcu_thread', 'call_rcu_wake_up'),
        desc='call_rcu_before_fork: call_rcu_mutex taken first and kept; registered hash-table hook once under it; PAUSE + wake-up for every helper; returns only after EVERY helper announced PAUSED; queues untouched'),
-    Ob(name='C16.O3.call_rcu_after_fork_parent', harness=H, entry='h_after_fork_parent', defines=D, unwind=6, min_covers=3, checks=CKL, timeout=600, tier='B',
+    Ob(name='C16.O3.call_rcu_after_fork_parent', harness=H, entry='h_after_fork_parent', defines=D, native=True, unwind=6, min_covers=3, checks=CKL, timeout=600, tier='B',
        bound='<= 2 helpers reacting within 0..2 polls', functions=('call_rcu_after_fork_parent',),
        desc='call_rcu_after_fork_parent: clears exactly PAUSE on every helper, returns only after every helper dropped PAUSED, then the hash-table hook, the mutex released last; queues untouched'),
     Ob(name='C16.O4.helper_pause', harness=H, entry='h_helper_pause', defines=D, mode='legacy', rules=('callrcu',), tier='B', bound='<= 2 queued callbacks, PAUSE cleared after 1..3 polls',
        replace=('urcu_memb_synchronize_rcu', 'set_thread_cpu_affinity', 'urcu_memb_register_thread', 'urcu_memb_unregister_thread'),
        unwind=5, min_covers=2, checks=CKL, timeout=600, functions=('call_rcu_thread',),
        desc='helper pause branch: unregisters as a reader before announcing PAUSED; while parked it is no reader and touches neither queue nor callbacks; drops PAUSED only after PAUSE was cleared, re-registers; then runs the callbacks queued at fork time exactly once'),
-    Ob(name='C16.O5.call_rcu_after_fork_child', harness=H, entry='h_after_fork_child', defines=D, unwind=6, min_covers=3, checks=CKL, timeout=600, tier='B',
+    Ob(name='C16.O5.call_rcu_after_fork_child', harness=H, entry='h_after_fork_child', defines=D, native=True, unwind=6, min_covers=3, checks=CKL, timeout=600, tier='B',
        bound='<= 2 inherited helpers with <= 1 queued callback each', functions=('call_rcu_after_fork_child', '_call_rcu_data_free', 'get_default_call_rcu_data', 'call_rcu_data_init'),
        desc='call_rcu_after_fork_child: mutex released; hook once; a new default helper with its own thread; per-CPU table / thread pointer dropped; inherited helpers marked STOPPED, never waited for nor joined, their callbacks moved exactly once to the new default helper, unlinked and freed once; never used => no-op'),
 ]
@@ -34,10 +34,10 @@ OBLIGATIONS += [
     Ob(name='C16.O6.wq_resume_worker', harness=WQ, entry='h_wq_resume', defines=('LOOPS',), mode='legacy', loop_contracts=True, need_loop_assertions=True, rules=('wq_fork',), unwind=3, min_covers=1, checks=CKL, timeout=300,
        functions=('urcu_workqueue_resume_worker',),
        desc='urcu_workqueue_resume_worker (loop invariant, any number of polls): clears exactly PAUSE, returns only after the worker dropped PAUSED'),
-    Ob(name='C16.O6.wq_create_worker', harness=WQ, entry='h_wq_create_worker', unwind=3, min_covers=2, checks=CKL, timeout=300, rules=('wq_fork',),
+    Ob(name='C16.O6.wq_create_worker', harness=WQ, entry='h_wq_create_worker', native=True, unwind=3, min_covers=2, checks=CKL, timeout=300, rules=('wq_fork',),
        functions=('urcu_workqueue_create_worker',),
        desc='urcu_workqueue_create_worker in the child, for every inherited flag combination: PAUSE and PAUSED both cleared, one new worker thread on the queue created with signals blocked, queued work kept'),
-    Ob(name='C16.O6.wq_worker_pause', harness=WQ, entry='h_wq_worker_pause', unwind=5, min_covers=2, checks=CKL, timeout=300, rules=('wq_fork',), tier='B', bound='<= 2 queued work items, PAUSE cleared after 1..3 polls',
+    Ob(name='C16.O6.wq_worker_pause', harness=WQ, entry='h_wq_worker_pause', native=True, unwind=5, min_covers=2, checks=CKL, timeout=300, rules=('wq_fork',), tier='B', bound='<= 2 queued work items, PAUSE cleared after 1..3 polls',
        functions=('workqueue_thread',),
        desc='workqueue_thread pause branch: before_pause callback, then PAUSED; no queue/work access while parked; PAUSED dropped only after PAUSE cleared; after_resume; then the queued work runs exactly once'),
 ]
